@@ -253,9 +253,22 @@ def check(repo, rep, tier):
                   "no guard behind (shared with C08)", floor=10)
     from .c08 import guard_discipline
     guard_discipline(repo, r5)
+    r6 = rep.rule("R-C09-6", "constraints emitted in a branch that is not taken are satisfied: unguarded emissions hold for either "
+                  "guard value, guarded ones go through the dummy path (shared with C07)", floor=4)
+    from .c07 import rule_unguarded_emissions, rule_dummy_path
+    rule_unguarded_emissions(repo, r6)
+    rule_dummy_path(repo, r6)
+    r7 = rep.rule("R-C09-7", "merges select exactly: if_then_else returns the branch value iff the condition is 1 (shared with C02)", floor=2)
+    from .c02 import rule_selection
+    rule_selection(repo, r7)
     r4 = rep.rule("R-C09-4", "branching constructs are oblivious (C06 rules over branching.py)", floor=1)
     mods = {BR}
     eval_tainted_alts(repo, r4, mods)
+    # the guard kernel of runtime.py decides HOW a constraint is emitted inside a branch: it must not depend on the
+    # guard's value either (only on whether a guard is installed)
+    KERNEL = ("pysnark.runtime:add_constraint", "pysnark.runtime:add_guard", "pysnark.runtime:restore_guard",
+              "pysnark.runtime:is_guard", "pysnark.runtime:ignore_errors", "pysnark.runtime:add_constraint_unsafe")
+    eval_tainted_alts(repo, r4, ("pysnark.runtime",), fq_filter=lambda fq: fq in KERNEL or fq.startswith("pysnark.runtime:guarded"))
     bad = eval_tainted_loops(repo, r4, mods)
     for (fq, itx), where in sorted(count_public_loops(repo, r4, mods).items()):
         if (fq, itx) not in bad:
